@@ -169,3 +169,10 @@ package table
 //@   loop 6 invariant r.table == t && fresh(widths) && len(widths) == len(t.columns) && 0 <= $i && $i <= len(t.columns) && row == t.rows[$i5] && 0 <= $i5 && $i5 < len(t.rows)
 //@   loop 6 invariant forall k int, j int :: {t.rows[k].cells[j]} 0 <= k && k < len(t.rows) && 0 <= j && j < len(t.columns) ==> widths[j] >= minLen(r, t.rows[k].cells[j])
 //@   loop 6 invariant outok() ==> outlen() - ls[$i5] == ($i == 0 ? 2 : ($i < len(t.columns) ? end[$i - 1] : end[len(t.columns) - 1] - 3))
+//
+// CSV: the cell text of a number is its exact decimal string; text cells are copied.
+//@ func (*CSVRenderer).renderCell
+//@   ensures isCell(c) ==> result.1 == nil
+//@   ensures typeIs(c, "textCell") ==> result.0 == dyn(c, "textCell").Content
+//@   ensures typeIs(c, "emptyCell") || typeIs(c, "SeparatorCell") ==> result.0 == ""
+//@   ensures typeIs(c, "numberCell") ==> result.0 == dstring(dyn(c, "numberCell").n)
